@@ -259,7 +259,42 @@ func ruleLeaderForgetsOldProgress(c *eng.Ctx) {
 			}
 		})
 	}
-	c.Check(ok, "a new leader forgets the follower progress of earlier terms", p.Pos(fn.Pos()), "every p.isr entry starts at -1 again in becomeLeader", "becomeLeader keeps the offsets recorded for the in-sync replicas while this server led an earlier epoch (replica offsets only grow, and only the leader's own entry is refreshed): after A → C → A with B truncating in between, A still believes B holds offset 5 and acknowledges an ALL message at offset 3 that B does not have")
+	if ok {
+		// … on every path: each successful return of becomeLeader has passed a range over p.isr that does the reset
+		var resetLoop ssa.Instruction
+		for _, ml := range eng.MapLoops(fn) {
+			if !eng.Load(isrF, nil)(ml.Range.X) {
+				continue
+			}
+			for blk := range ml.Body {
+				for _, in := range blk.Instrs {
+					switch x := in.(type) {
+					case *ssa.MapUpdate:
+						if eng.Load(isrF, nil)(x.Map) {
+							resetLoop = ml.Range
+						}
+					case *ssa.Store:
+						if fa, isFA := x.Addr.(*ssa.FieldAddr); isFA && fieldIs(fa, offF) && eng.IntConst(-1)(x.Val) {
+							resetLoop = ml.Range
+						}
+					}
+				}
+			}
+		}
+		if resetLoop == nil {
+			ok = false
+		} else {
+			for _, r := range eng.Returns(fn) {
+				rv := eng.RetVals(r)
+				if len(rv) == 1 && eng.NilConst(rv[0]) {
+					if g, _ := eng.PrecededBy(fn, r, func(x ssa.Instruction) bool { return x == resetLoop }); !g {
+						ok = false
+					}
+				}
+			}
+		}
+	}
+	c.Check(ok, "a new leader forgets the follower progress of earlier terms", p.Pos(fn.Pos()), "every p.isr entry starts at -1 again in becomeLeader, on every path to a successful return", "becomeLeader keeps the offsets recorded for the in-sync replicas while this server led an earlier epoch (replica offsets only grow, and only the leader's own entry is refreshed): after A → C → A with B truncating in between, A still believes B holds offset 5 and acknowledges an ALL message at offset 3 that B does not have")
 }
 
 // ruleReplicationShipsAtLeastOne (R04.6 extension): whatever the leader admitted can be shipped. The size cut-off of a
